@@ -31,7 +31,10 @@ Step(e) ==
     [] e.op = "write" -> [total |-> total + e.n, nlog |-> nlog, derived |-> derived,
                           f |-> Flag(e.res = "ok", "panic") \cup Flag(e.first = total + 1 /\ e.last = total + e.n, "harness")]
     [] e.op = "snapshot" -> [total |-> total, nlog |-> nlog, derived |-> derived,
-                             f |-> Flag(e.res = "ok" /\ e.ok, "panic") \cup Flag(e.ids = SnapshotC(total, rcap), "snapshot")]
+                             f |-> Flag(e.res = "ok" /\ e.ok, "panic") \cup Flag(e.ids = SnapshotC(total, rcap), "snapshot")
+                                   \* the second reader of the buffer (WriteLogs) shows the same entries with their own fields
+                                   \cup Flag(~("wl" \in DOMAIN e) \/ e.wl # "differs", "writelogs")
+                                   \cup Flag(~("wl" \in DOMAIN e) \/ e.wl # "format", "drift-writelogs")]
     [] e.op = "concsnapshot" -> [total |-> total, nlog |-> nlog, derived |-> derived, f |-> Flag(ConcOK(e), "concsnapshot")]
     [] OTHER -> [total |-> total, nlog |-> nlog, derived |-> derived, f |-> {"unknown-op"}]
 
